@@ -35,6 +35,10 @@ import (
 
 var fpMemo = map[*ssa.Function]string{}
 
+// a construct (a loop) must have at least this many instructions for its own
+// fingerprint to identify it anywhere in its package
+const minPkgShapeSize = 25
+
 func typeSig(t types.Type, d int) string {
 	if d > 3 || t == nil {
 		return "_"
@@ -276,6 +280,9 @@ func (c *Check) assignShapes() {
 				lk := "L" + o.LocalSeed
 				o.ShapeLocal = fmt.Sprintf("%s~%s~%s~%d", g.rule, g.fn, o.LocalSeed, nth[lk])
 				nth[lk]++
+				if o.LocalSize >= minPkgShapeSize {
+					o.ShapePkg = fmt.Sprintf("%s~%s~%s", g.rule, fnPkgPath(byName[g.fn]), o.LocalSeed)
+				}
 			}
 		}
 	}
@@ -300,7 +307,7 @@ func recordShape(table string, r *tableRow, o *Obligation) {
 	if os.Getenv("VERIF_SHAPES") == "" || o.Shape == "" {
 		return
 	}
-	shapeDump[table+"\x00"+r.Property+"\x00"+r.Key] = o.Shape + "\x00" + o.ShapeLocal
+	shapeDump[table+"\x00"+r.Property+"\x00"+r.Key] = o.Shape + "\x00" + o.ShapeLocal + "\x00" + o.ShapePkg
 }
 
 func flushShapes() {
